@@ -132,15 +132,48 @@ def constructed_singletons(case, rng, spec):
             case.violate("~A | ~far(A) gives %s instead of the Whole singleton" % type(res).__name__)
 
 
+def identities(case, spec):
+    """copy(S) and ~~S are re-classified from their boundaries (ShapeFromJordans): they must be
+    well formed, of the same kind, and denote the same region"""
+    import copy as _copy
+
+    S0 = G.build(spec)
+    r0 = S.snap_shape(S0)
+    exact = S.is_exact_region(r0) and G.spec_num(spec) in ("int", "frac")
+    for name, fn in (("copy(S)", lambda s: _copy.copy(s)), ("~~S", lambda s: ~(~s)), ("S | Empty", lambda s: s | shapepy_empty())):
+        res, exc = call(fn, G.build(spec))
+        case.count("wellformed:judged")
+        case.judged()
+        if exc is not None:
+            case.violate("%s raised %s" % (name, exc_text(exc)))
+            continue
+        for msg, det in P.judge_wellformed(res)[:2]:
+            case.violate("%s: %s" % (name, msg), op=name)
+        r1 = S.snap_shape(res)
+        if S.structure(r1) != S.structure(r0):
+            case.violate("%s has another structure than S: %s instead of %s" % (name, S.structure(r1), S.structure(r0)), op=name)
+        else:
+            ok, why = S.same_denotation(r0, r1, 0.0 if exact else S.region_tol(r0, 1e-9))
+            if not ok:
+                case.violate("%s does not denote the region of S: %s" % (name, why), op=name)
+
+
+def shapepy_empty():
+    import shapepy
+
+    return shapepy.EmptyShape()
+
+
 def case(ctx):
     rng = ctx.rng
     mode = ctx.index % 3
     if mode == 2:
-        kind = rng.choice("SSUCCDDV")
+        kind = rng.choice("SSUCCDDNNV")
         curved = rng.random() < 0.2
         num = None if curved else rng.choice(["int", "frac", "float"])
         spec, _ = G.random_shape(rng, kind, num, curved, (0, 0), 10.0)
         case = Case(ctx, {"shape": spec, "mode": "laws"}, "laws-%s-%s" % (kind, "curved" if G.spec_is_curved(spec) else G.spec_num(spec)))
+        identities(case, spec)
         laws(case, spec, rng)
         if not G.spec_is_curved(spec):
             constructed_singletons(case, rng, spec)
